@@ -13,6 +13,8 @@ open Ucfg
 theorem override_none (h : Handling) (name : String) (idx : Int) :
     fieldOptsOverride h none name idx = (h, none) := rfl
 
+theorem overrideIdx_none (h : Handling) (i : Nat) : fieldOptsOverrideIdx h none i = (h, none) := rfl
+
 /-- on values that are not sub-configurations the two merges coincide, whatever the tree -/
 theorem vals_nonSub (h : Handling) (ft : Option Val) (old : Option Val) (v : Val) (hv : v.isSub = false) :
     mergeValsF h ft old v = mergeValsP h old v := by
@@ -53,7 +55,7 @@ theorem valsF_none (h : Handling) (old : Option Val) : ∀ (v : Val),
         | prim p => rfl
         | dyn i e => rfl
         | sub d1 a1 hd1 ha1 =>
-          simp only [override_none]
+          simp only
           rw [dictF_none h _ d2, arrF_none h 0 _ a2]
 theorem dictF_none (h : Handling) (d1 : Dict) : ∀ (d2 : Dict),
     mergeDictF h none d1 d2 = mergeDictP h d1 d2
@@ -68,7 +70,7 @@ theorem arrF_none (h : Handling) (i : Nat) (a1 : List Val) : ∀ (a2 : List Val)
     cases a1 with
     | nil => simp [mergeArrF, mergeArrP]
     | cons x a =>
-      simp only [mergeArrF, mergeArrP, override_none]
+      simp only [mergeArrF, mergeArrP, overrideIdx_none]
       rw [valsF_none h _ y, arrF_none h (i+1) a b]
 end
 
@@ -102,19 +104,19 @@ theorem ftWildcard_none (d : Dict) (a : List Val) (hd ha : Bool) (hw : dget d "*
 /-- A key the policy tree has no entry for (and no `**` wildcard) leaves the configured
 paths: below it the policy is the global one and no tree is in force. -/
 theorem override_miss (h : Handling) (d : Dict) (a : List Val) (hd ha : Bool) (k : String)
-    (hc : ftChild (.sub d a hd ha) k (-1) = none) (hw : dget d "**" = none) (hk : k ≠ "*") :
+    (hc : ftChild (.sub d a hd ha) k (-1) = none) (hw : dget d "**" = none) :
     fieldOptsOverride h (some (.sub d a hd ha)) k (-1) = (h, none) := by
   simp only [fieldOptsOverride, fhNode, hc, Option.bind_none, fhWild_noWildcard d k (-1) none hw]
-  simp [includeWildcard, ftWildcard_none d a hd ha hw, hk]
+  simp [includeWildcard, ftWildcard_none d a hd ha hw]
 
 /-- … hence a setting outside every configured path is merged exactly as under the global
 policy alone. -/
 theorem outside_unaffected (h : Handling) (d : Dict) (a : List Val) (hd ha : Bool) (k : String)
-    (hc : ftChild (.sub d a hd ha) k (-1) = none) (hw : dget d "**" = none) (hk : k ≠ "*")
+    (hc : ftChild (.sub d a hd ha) k (-1) = none) (hw : dget d "**" = none)
     (old : Option Val) (v : Val) :
     mergeValsF (fieldOptsOverride h (some (.sub d a hd ha)) k (-1)).1
                (fieldOptsOverride h (some (.sub d a hd ha)) k (-1)).2 old v = mergeValsP h old v := by
-  rw [override_miss h d a hd ha k hc hw hk]
+  rw [override_miss h d a hd ha k hc hw]
   exact valsF_none h old v
 
 /-- A key with an entry that carries a policy switches to that policy (and descends into
@@ -126,10 +128,46 @@ theorem override_hit (h h' : Handling) (d : Dict) (a : List Val) (hd ha : Bool) 
   simp only [fieldOptsOverride, fhNode, hc, Option.bind_some, hh]
   simp [includeWildcard, ftWildcard_none d a hd ha hw]
 
+/-- A list element the policy tree has neither an index entry nor a `*` entry for (and no `**` wildcard) leaves the
+configured paths as well: a policy configured for `l.1` does not reach `l.2.1`, one for `c.b` does not reach `c.0.b`. -/
+theorem elem_miss (h : Handling) (d : Dict) (a : List Val) (hd ha : Bool) (i : Nat)
+    (hi : ftChild (.sub d a hd ha) "" i = none) (hs : ftChild (.sub d a hd ha) "*" (-1) = none)
+    (hw : dget d "**" = none) :
+    fieldOptsOverrideIdx h (some (.sub d a hd ha)) i = (h, none) := by
+  simp only [fieldOptsOverrideIdx, fhNode, hi, Option.bind_none, fhWild_noWildcard d "" i none hw]
+  simp only [Option.isSome_none, Bool.or_self, Bool.false_eq_true, if_false]
+  simp only [fieldOptsOverride, fhNode, hs, Option.bind_none, fhWild_noWildcard d "*" (-1) none hw]
+  simp [includeWildcard, ftWildcard_none d a hd ha hw]
+
+/-- … so such an element is merged exactly as under the policy in force at the list -/
+theorem elem_outside_unaffected (h : Handling) (d : Dict) (a : List Val) (hd ha : Bool) (i : Nat)
+    (hi : ftChild (.sub d a hd ha) "" i = none) (hs : ftChild (.sub d a hd ha) "*" (-1) = none)
+    (hw : dget d "**" = none) (old : Option Val) (v : Val) :
+    mergeValsF (fieldOptsOverrideIdx h (some (.sub d a hd ha)) i).1
+               (fieldOptsOverrideIdx h (some (.sub d a hd ha)) i).2 old v = mergeValsP h old v := by
+  rw [elem_miss h d a hd ha i hi hs hw]
+  exact valsF_none h old v
+
+/-- An element with an index entry that carries a policy is merged under that policy, whatever the `*` entry says. -/
+theorem elem_hit (h h' : Handling) (d : Dict) (a : List Val) (hd ha : Bool) (i : Nat) (c : Val)
+    (hc : ftChild (.sub d a hd ha) "" i = some c) (hh : ftHandlingOf c = some h')
+    (hw : dget d "**" = none) :
+    fieldOptsOverrideIdx h (some (.sub d a hd ha)) i = (h', some c) := by
+  simp only [fieldOptsOverrideIdx, fhNode, hc, Option.bind_some, hh]
+  simp only [Bool.true_or, if_true]
+  simp only [fieldOptsOverride, fhNode, hc, Option.bind_some, hh]
+  simp [includeWildcard, ftWildcard_none d a hd ha hw]
+
 /-! non-vacuity: the tree FieldAppendValues("l") builds, a key with and a key without an entry -/
 def exTree : Val := .sub [("l", .sub [("*", .prim (.uint 3))] [] true false)] [] true false
 example : ftChild exTree "x" (-1) = none := by decide
 example : fieldOptsOverride .dflt (some exTree) "x" (-1) = (.dflt, none) := by decide
 example : (fieldOptsOverride .dflt (some exTree) "l" (-1)).1 = .append := by decide
+
+/-- the tree FieldAppendValues("l.1") builds: element 1 has the entry, element 2 leaves the configured paths -/
+def exIdxTree : Val := .sub [] [.prim .nil, .sub [("*", .prim (.uint 3))] [] true false] false true
+example : fieldOptsOverrideIdx .dflt (some exIdxTree) 1 = (.append, some (.sub [("*", .prim (.uint 3))] [] true false)) := by decide
+example : fieldOptsOverrideIdx .dflt (some exIdxTree) 2 = (.dflt, none) := by decide
+example : ftChild exIdxTree "" 2 = none ∧ ftChild exIdxTree "*" (-1) = none := by decide
 
 end Ucfg.C16
